@@ -60,6 +60,16 @@ class C18(Check):
                 for d in (-50401, -3601, -3600, -1801, -1, 0, 1, 1799, 1800, 3599, 3600, 43200, 50400):
                     s = edge + d
                     cases.append(("dos_try_from %d %d %d" % (s, max(off, 0), max(-off, 0)), {"k": "try_from", "ts": s + off}))
+        # far outside the range: one instant in every year 1..9999 (years congruent to an accepted one modulo 256 or
+        # 65536 included), and the extremes the calendar type can hold
+        for y in range(1, 10000):
+            s_ = calendar.timegm((y, 1 + y % 12, 1 + y % 28, y % 24, y % 60, y % 60))
+            if s_ >= 0:
+                cases.append(("dos_try_from %d" % s_, {"k": "try_from", "ts": s_}))
+            else:
+                cases.append(("dos_try_from_neg %d" % -s_, {"k": "try_from", "ts": s_, "impl_only": True}))
+        for s_ in (-377705116800, -62135596800, -1, 253402300799):      # -9999-01-01, 0001-01-01, 1969-12-31 23:59:59, 9999-12-31 23:59:59
+            cases.append((("dos_try_from %d" % s_) if s_ >= 0 else ("dos_try_from_neg %d" % -s_), {"k": "try_from", "ts": s_, "impl_only": s_ < 0}))
         # through the writer: the (date, time) words an entry is given -- as DateTime::from_msdos produces them from any
         # archive, valid calendar date or not -- are the words in its local header and central record, whether the entry is
         # started, copied raw from an archive carrying them, or re-emitted by an append round
@@ -140,7 +150,9 @@ class C18(Check):
             if want != got:
                 return "to_time(%04d-%02d-%02d %02d:%02d:%02d) = %s, calendar says %s" % (y, mo, dd, h, mi, s, got, want)
         elif k == "try_from":
-            dtm = datetime.datetime.utcfromtimestamp(meta["ts"])
+            if meta["ts"] < -62135596800:
+                return None if f is None else "an instant before year 1 was accepted: %s" % f[:6]
+            dtm = datetime.datetime(1970, 1, 1) + datetime.timedelta(seconds=meta["ts"])
             ok = 1980 <= dtm.year <= 2107
             if ok != (f is not None):
                 return "try_from(%s) %s" % (dtm, "accepted" if f else "rejected")
